@@ -364,6 +364,7 @@ def run(ctx):
     refset_rule(ctx, syn)
     shortcut_rule(ctx)
     refres_rule(ctx, syn)
+    exhaust_rule(ctx, syn)
 
 
 def split_and(c):
@@ -534,3 +535,49 @@ def refres_rule(ctx, syn, rid="C06.REFRES"):
         if isinstance(got, dict) and len(got.get("data", [])) != len(seq):
             ctx.report(r, "members:" + label, "a set collected from %d selections holds %d members" % (len(seq), len(got.get("data", []))), fn.file, fn.line)
     ctx.floor(r, n, 6, "member sequences evaluated")
+
+
+# ---------------------------------------------------------------------- EXHAUST
+def exhaust_rule(ctx, syn, rid="C06.EXHAUST"):
+    """RANGE shows that the candidate ranges contain every related selection; they are of use only if the search looks
+    at all of them.  next_textselection moves on to the next candidate iterator (self.next_iterator()) when the current
+    one is exhausted - never while it still yields: candidates come ordered by begin position only, so no property of
+    the one just seen (its end, say) tells anything about the ones that follow."""
+    from synq import children
+    r = ctx.rule(rid, "in next_textselection, self.next_iterator() is called only where the current candidate iterator has returned None (the else of `if let Some(c) = ..next()`, or after a `while let Some(c) = ..next_back()` loop), never inside the branch that handles a candidate")
+    fns = [f for f in syn.fns if f.name == "next_textselection" and (f.self_ty or "").startswith("FindTextSelectionsIter") and f.body is not None]
+    if len(fns) != 1:
+        ctx.anchor_missing(r, "FindTextSelectionsIter::next_textselection")
+        return
+    fn = fns[0]
+    calls = []
+
+    def yields(cond):
+        c = strip(cond)
+        return c.get("k") == "letexpr" and "Some" in (c["pat"].get("s") or "") and re.search(r"\.next(_back)?\(\)$", unparse(c["e"]).replace(" ", "")) is not None
+
+    def visit(nd, inside):
+        if not isinstance(nd, dict):
+            return
+        k = nd.get("k")
+        if k == "mcall" and nd["method"] == "next_iterator" and unparse(strip(nd["recv"])) == "self":
+            calls.append((nd.get("l"), inside))
+        if k == "if" and yields(nd["cond"]):
+            visit(nd["cond"], inside)
+            visit(nd["then"], True)
+            if nd.get("else"):
+                visit(nd["else"], inside)
+            return
+        if k == "while" and yields(nd["cond"]):
+            visit(nd["body"], True)
+            return
+        for c_ in children(nd):
+            visit(c_, inside)
+    visit(fn.body, False)
+    n = 0
+    for line, inside in calls:
+        n += 1
+        r.hit("next_iterator#%d" % n, sample={"line_in_fn": n, "while_iterator_yields": inside})
+        if inside:
+            ctx.report(r, "abandons-iterator", "next_textselection calls self.next_iterator() inside the branch that handles a candidate the iterator has just yielded: the rest of that candidate range is never looked at, so related selections that begin later in it are missing from the result", fn.file, line)
+    ctx.floor(r, n, 2, "next_iterator() calls")
